@@ -66,6 +66,24 @@ CHECKS = {
               "24-80 literals x both operand orders, wildcards and lists; evaluate() is compared with an independent PEP 440 reading on an X.Y.Z grid."),
         design_ref='DESIGN.md section 7 / C10',
         technique='Coq proof (range semantics + case analysis of the rewrite, arithmetic by lia) + differential correspondence + grid oracle'),
+    'C11': dict(
+        text=("Machine-checked proof (Coq): `extra == N` evaluates to membership of the normalised name, an invalid name never matches, `!=` is the "
+              "negation as a diagram; simplify_extras(E) evaluates on S exactly as the original on E u S for every environment, the result does not "
+              "mention any extra of E (hence flipping it changes no evaluation) and stays canonical; with_extra_marker is marker AND extra == e. "
+              "The recursion below an eliminated extra (two provided extras on one path) is part of the proved function. top_level_extra is decided by "
+              "differential testing against the DNF here and by the DNF theorems of C05. Tie: extracted m_simplify_extras / m_with_extra vs the crate on "
+              "the crate's own operands; evaluate() on S vs S u E on grid environments."),
+        design_ref='DESIGN.md section 7 / C11',
+        technique='Coq proof (restriction semantics by induction on diagrams) + step-wise differential correspondence + evaluation oracle'),
+    'C13': dict(
+        text=("Machine-checked proof (Coq): evaluate_extras (= evaluate_optional_environment(None)) is true whenever some environment - indeed any "
+              "valuation of the diagram variables agreeing on the extras - satisfies the marker; on canonical diagrams over dense domains a positive answer "
+              "has a witness (exactness for independent variables); the python-version variant never consults its list because no diagram node is keyed by "
+              "python_version (proved for every expression diagram, monitored on every dump), so it equals evaluate_extras. Tie: extracted functions vs the "
+              "crate on the crate's dumps; negative verdicts are attacked by an exact region search replayed on evaluate(). Markers with an uninhabited "
+              "string range are the known finding F10b (over-approximation stays sound there)."),
+        design_ref='DESIGN.md section 7 / C13',
+        technique='Coq proof (any-edge traversal soundness/exactness) + differential correspondence + satisfiability search'),
 }
 
 PENDING = {}
